@@ -1070,7 +1070,9 @@ def check_tags(repo: Repo, res: Result, parser: ClassInfo, error_cls: ClassInfo,
     # a pattern applied once (search / match) to a text of several lines reads only one of them
     if completed:
         for st in subjects:
-            if st.how in ("search", "match", "fullmatch") and len(st.calls) == 1 and st.subject.concrete and any(isinstance(v, str) and len([l for l in v.splitlines() if l.strip()]) > 1 for v in st.subject.values()):
+            # (the first step of a hand-written scan - `p.search(text)` followed by `p.search(text, previous.end())` in a loop - is no single use)
+            rescanned = any(o is not st and o.pattern.text == st.pattern.text and (o.how in ("finditer", "findall") or len(o.calls) > 1) for o in interp.sites.values())
+            if st.how in ("search", "match", "fullmatch") and len(st.calls) == 1 and not rescanned and st.subject.concrete and any(isinstance(v, str) and len([l for l in v.splitlines() if l.strip()]) > 1 for v in st.subject.values()):
                 key_ = repo.key(st.fi, st.node) if st.fi is not None else parse_key
                 res.add("C06.R1", key_ + " [applied once to the whole diagram]", False, f"`{norm(st.node, 60)}` applies the pattern once to the text between the tags ({len(BODY.strip().splitlines())} lines in the sample): only the first declaration / arrow of a diagram is read", f"{st.fi.relpath}:{st.node.lineno}" if st.fi is not None else parse_where, kind="regex-language")
     # rejected contents
